@@ -14,6 +14,7 @@ import (
 	"sort"
 	"strconv"
 	"strings"
+	"sync"
 	"testing"
 	"time"
 
@@ -294,6 +295,51 @@ func trimStack(st string) string {
 
 // one evaluates one case with bookkeeping and returns the failure (nil if the
 // property held or the failure is a listed open known finding).
+// ---- library-call watchdog ----
+//
+// A check wraps calls into the library under test with Lib. If such a call does
+// not return within libHangLimit the process writes "<inflight>.libhang" (the
+// call's name) and exits with status 3; the driver confirms by re-running the
+// journaled case alone. Time spent in the oracle is never counted, so a slow
+// harness cannot be mistaken for a hanging library.
+var (
+	libMu       sync.Mutex
+	libName     string
+	libSince    time.Time
+	libWatchdog sync.Once
+)
+
+const libHangLimit = 60 * time.Second
+
+func Lib(name string, fn func()) {
+	libWatchdog.Do(func() {
+		go func() {
+			for {
+				time.Sleep(time.Second)
+				libMu.Lock()
+				n, since := libName, libSince
+				libMu.Unlock()
+				if n != "" && time.Since(since) > libHangLimit {
+					if path := os.Getenv("VERIF_INFLIGHT"); path != "" {
+						os.WriteFile(path+".libhang", []byte(n), 0o644)
+					}
+					fmt.Printf("LIBRARY-CALL-HANG %s did not return within %v\n", n, libHangLimit)
+					os.Exit(3)
+				}
+			}
+		}()
+	})
+	libMu.Lock()
+	libName, libSince = name, time.Now()
+	libMu.Unlock()
+	defer func() {
+		libMu.Lock()
+		libName = ""
+		libMu.Unlock()
+	}()
+	fn()
+}
+
 var inflightFile *os.File
 
 // journal records the case about to run so that the driver can name it if the
